@@ -132,6 +132,15 @@ Print Assumptions C12_sliding_window_refuted.
     [SRemove] only with a canonical (lower-case, even-length, all-hex)
     spelling: every history that comes in over HTTP. *)
 
+(** The key handling of [check_session] / [logout] / [logout_request] is the
+    source's: tools/routes re-reads it on every run (the lookup and the map
+    deletions use the cookie string as sent, the bucket deletion its
+    [hex.DecodeString], the HTTP callers pass the cookie's value). *)
+Theorem C12_session_keys_code :
+  session_check_as_sent && session_remove_as_sent && session_remove_decodes && session_cookie_value = true.
+Proof. exact session_keys_as_modelled. Qed.
+Print Assumptions C12_session_keys_code.
+
 (** In every state reachable over HTTP the map in memory is the bucket on
     disk under [hex.EncodeToString]. *)
 Theorem C12_mirror : forall ttl h, Forall wf_http h ->
